@@ -20,47 +20,82 @@ MANIFEST = {
             "fftshift with its centered/normalized/complex_input guards) are mutual inverses for all 8 flag combinations on one "
             "axis, over abstract per-axis operators, and on the tensor backend the driver runs; they preserve energy when "
             "normalised; with Mathlib's ZMod.dft as the per-axis transform the pair is an inverse pair and an isometry without "
-            "further hypotheses and the centred transform is the textbook shifted DFT scale * sum_j x_j w^(-(k-c)(j-c)), c = n div 2; "
-            "liftings of linear per-fibre maps along different axes commute (alongAxis_comm_linear), so for the concrete n-D "
-            "transform (per-axis ZMod DFT lifted through the alongAxis the driver runs) ifft2(fft2 x) = x = fft2(ifft2 x) and the "
-            "Parseval identity hold on every well-formed complex tensor, every duplicate-free axis tuple, all flags, with no "
-            "hypothesis left (ifft2_fft2_id_tensor_dft, fft2_energy_tensor_dft). "
-            "Tied to the code by translated shift amounts / narrow offsets / cat order / call plan (bridge lemmas) and by "
-            "differential correspondence (exact on labelled tensors for the shifts; symbolic root-of-unity answers vs torch "
-            "under 1e-5 for fft2/ifft2 on basis tensors).",
-    "note": "Trusted: Lean kernel (+propext, Classical.choice, Quot.sound), the AST translator, and ONE assumption about the external "
-            "transform: torch.fft.fftn/ifftn(x, dim=dims, norm) is the composition of the 1-D DFTs along the axes of dims with the "
-            "per-axis scale of the norm (checked on every run by the oracle against sequential 1-D ffts and the explicit DFT "
-            "matrix for all four norm values, and on every basis-vector class by the correspondence). Everything else about the "
-            "transform (inverse pair, isometry, commutation across axes) is proved for the Mathlib DFT. Call sites: operators are "
-            "also exercised as the engines obtain them (str_to_class / build_operators on every operator string of the shipped "
-            "YAMLs and DefaultConfig, dim literals of the model classes, tuple and list) and on strided / permuted / offset / "
-            "expanded views (same result, input untouched, no aliasing). Float32 rounding is outside the theorems (tolerances "
-            "1e-5/1e-4). The multi-index sum is proved for an axis pair (fft2_two_axes_sum: entry (k,l) = sum_x sum_y W_a(k,x) "
-            "W_b(l,y) t(x,y), W the centred DFT matrix); for three axes it is the per-axis composition (alongAxis_comm_linear), "
-            "not restated as a triple sum.",
-    "technique": "Lean 4 proof (list/index arithmetic, plan interpretation, alongAxis lifting, Mathlib ZMod.dft) + AST translation "
-                 "bridge + differential correspondence + property oracle",
+            "further hypotheses (ifft2_fft2_id_tensor_dft, fft2_energy_tensor_dft: every well-formed complex tensor, every "
+            "duplicate-free axis tuple, all flags). "
+            "THE n-D CLOSED FORM is proved for any number of axes in any order, centred or not, both directions "
+            "(fft2_nd_sum): entry idx of fft2/ifft2 over dims [d1..dr] = Sum_{jr}..Sum_{j1} Prod_i W_{n_i}(idx[d_i], j_i) * "
+            "t[idx with idx[d_i] := j_i], W_n(k,j) = scale * exp(-/+ 2 pi i (j-c)(k-c)/n), c = n div 2 centred / 0 uncentred "
+            "(cdftMat_eq_exp, dftMat_eq_exp), at the row-major offset Tensor.offset the driver uses; written out as explicit "
+            "double and triple sums (fft2_two_axes_closed for dims [a,b] in either order, fft2_three_axes_closed); for that the "
+            "plan is regrouped into one 1-D operator per axis (fft2_eq_applyAxes, applyAxes_fuse). "
+            "EVERY ERROR BRANCH of the glue: the interpreted plan equals a flat priority list (validate_fft2_eq_spec, "
+            "validate_ifft2_eq_spec: TypeError for a negative dim before AssertionError for a last axis != 2 before RuntimeError "
+            "for a non-float view before IndexError / ZeroDivisionError of the centred shifts before IndexError / ValueError / "
+            "RuntimeError of the dtype test and of torch), the exact acceptance condition (validate_ok_iff, "
+            "validate_ok_iff_complex), fft2 and ifft2 reject exactly the same calls. "
+            "CALL SITES AND RE-IMPLEMENTATIONS: all 80 calls of fft2 / ifft2 / forward_operator / backward_operator under direct/ "
+            "are scanned into a Lean table; for every table passing the decidable predicate (dim = distinct non-negative axis "
+            "pairs/triples, only the three flags overridden) every call is accepted by the glue (site_accepted) and the inverse "
+            "law and the closed form apply (callsite_laws); the numpy re-implementations (fake.fft, fake.ifft, "
+            "SheppLoganDataset.fft) are translated into plans, and a plan passing Reimpl.ok computes exactly fft2/ifft2 "
+            "(reimpl_eq_fft2, reimpl_inverse_pair); the pinned SheppLoganDataset.fft (shifts swapped) is refuted "
+            "(shepp_fft_pinned_violates, shepp_fft_pinned_differs) and shown invisible on even sizes "
+            "(shepp_fft_pinned_agrees_on_even); a translated table says that no function of the mechanism writes module / "
+            "function state, updates an argument in place, has mutable defaults / decorators or returns early (transforms_pure). "
+            "Tied to the code by translated shift amounts / narrow offsets / cat order / call plan / dtype test / re-implementation "
+            "plans / purity facts / call-site table (bridge lemmas) and by differential correspondence (exact on labelled tensors "
+            "for the shifts; exact symbolic root-of-unity answers vs torch under 1e-5 for fft2/ifft2, for the numpy "
+            "re-implementations and for torch.fft.fftn/ifftn alone on unit impulses; exception class names on single and double "
+            "faults).",
+    "note": "Trusted: Lean kernel (+propext, Classical.choice, Quot.sound), the AST translator / scanners, and ONE assumption about "
+            "the external transform: torch.fft.fftn/ifftn(x, dim=dims, norm) is the composition of the 1-D DFTs along the axes of "
+            "dims with the per-axis scale of the norm. It is checked on every run (a) exactly: every unit impulse of a fixed set "
+            "of small shapes (thorough: every 2-D shape up to 6x6 at two embeddings and every 3-axis shape up to 3x3x4), both "
+            "directions, norms ortho / backward / forward, against the model's exact monomial in Q[w] (driver op fftn = the "
+            "per-axis lifted DFT alone), and (b) on random integer data against sequential 1-D ffts and the explicit DFT matrix; "
+            "linearity of fftn is part of the assumption. Everything else about the transform (inverse pair, isometry, commutation "
+            "across axes, closed form) is proved for the Mathlib DFT. Float32 rounding is outside the theorems (tolerances "
+            "1e-5/1e-4). Call-site table: `dim` given by name is resolved to the spatial-dims literals of the same file (or of "
+            "direct/ when the file has none) — which literal a given object carries at run time is not modelled. The repaired "
+            "finding of this phase: SheppLoganDataset.fft applied fftshift before / ifftshift after the transform (wrong for odd "
+            "nx, ny; fixed in 6aa0ad9). Observations (not violations): numpy-int dims raise TypeError; fftshift/roll with shift = 0 "
+            "return the input object itself (no caller of fftshift / ifftshift / roll exists outside transforms.py, and fft2/ifft2 "
+            "never return a tensor sharing memory with their input); the 1-D mask fftshift in direct/common/subsample.py:1044 "
+            "converts fftfreq layout to centred layout and is the correct direction.",
+    "technique": "Lean 4 proof (list/index arithmetic, plan interpretation, alongAxis lifting, multi-index sums, Mathlib ZMod.dft) + "
+                 "AST translation bridge (kernels, plans, structural tables) + differential correspondence + property oracle with "
+                 "call histories",
 }
 TRUSTED = [
     "Lean 4.33 kernel; axioms ⊆ {propext, Classical.choice, Quot.sound}",
-    "harness/translate (Python AST -> Lean): shift amounts, roll_one_dim `%`/narrow windows/cat order, fft2/ifft2 call plan",
-    "Tensor.alongAxis (row-major lifting of 1-D list functions to one axis) — validated by correspondence, not proved",
-    "torch.fft.fftn/ifftn = per-axis DFT / inverse DFT with norm in {ortho, backward}: assumed (hypotheses `inv_fwd`, "
-    "`fwd_inv`, isometry); probed by basis tensors against the exact symbolic answer and against numpy",
-    "torch narrow/cat/view_as_complex/view_as_real index semantics as encoded by drop/take/++ and the identity view",
+    "harness/translate (Python AST -> Lean): shift amounts, roll_one_dim `%`/narrow windows/cat order, fft2/ifft2 call plan, "
+    "verify_fft_dtype_possible / is_power_of_two, numpy re-implementation plans (dataflow order + axes), per-function purity "
+    "counts, call-site scan (dim forms, flag overrides)",
+    "torch.fft.fftn/ifftn(x, dim, norm) = composition of per-axis DFTs with the norm's per-axis scale (and linear): assumed; probed "
+    "exactly on every unit impulse of small shapes for all three norms and on random data (key assumption/fftn-per-axis)",
+    "numpy.fft.fft2/ifft2/fftshift/ifftshift used by the re-implementations = the same per-axis DFT / rolls (probed by the same "
+    "unit-impulse correspondence)",
+    "torch narrow/cat/view_as_complex/view_as_real index semantics as encoded by drop/take/++ and the identity view; "
+    "Tensor.alongAxis = Tensor.alongAxisL is proved (Lemmas/TensorLift.lean), its agreement with torch's memory layout is "
+    "validated by correspondence",
 ]
 ASSUMPTIONS = [
-    "shift correspondence uses integer labels (exact); fft2/ifft2 correspondence compares the model's exact monomial "
-    "sqrt(num/den)*exp(-2*pi*i*E/L) with torch under atol 1e-5 on unit impulses",
-    "oracle tolerances: inverse pair atol 1e-4 on integer-valued tensors in [-8, 8]; energy rtol 1e-4; numpy reference atol 1e-4",
-    "empty axes (length 0) are outside the property (the code raises ZeroDivisionError when centred)",
+    "shift correspondence uses integer labels (exact); fft2/ifft2, numpy re-implementation and fftn correspondence compare the "
+    "model's exact monomial sqrt(num/den)*exp(-2*pi*i*E/L) with the implementation under atol 1e-5 on unit impulses",
+    "oracle tolerances: inverse pair atol 1e-4 on integer-valued tensors in [-8, 8]; energy rtol 1e-4; numpy reference atol 1e-4; "
+    "numpy re-implementations vs textbook sum atol 1e-6 (float64); histories and repeated calls bit-identical",
+    "empty axes (length 0) are outside the property; the glue's answer for them (ZeroDivisionError centred, RuntimeError / "
+    "ValueError otherwise) is modelled and compared",
+    "a call site's `dim` name is resolved statically to the spatial-dims literals of its file",
 ]
 RULE = ("shift cases: arange-labelled tensors of rank 1-6, lengths from {1,2,3,4,5,6,7,9,12}, every axis subset; non-trivial = "
         "some shifted axis has length >= 2 (bucket says whether an odd length >= 3 is shifted). fft cases: unit impulses "
         "(real or imaginary component) in tensors of rank 2-6, every axis pair/triple, all 8 flag combinations, both "
-        "directions; non-trivial = at least one transformed axis of length >= 2; error cases counted in bucket fft/err-*. "
-        "distinct = distinct protocol line / oracle case key")
+        "directions, operator strings of the YAMLs, views; numpy re-implementations on unit impulses (forced odd lengths); "
+        "fftn cases: every unit impulse of the probe shapes x 2 directions x 3 norms; non-trivial = at least one transformed "
+        "axis of length >= 2; error cases (single and double faults, empty axes, mixed power-of-two lengths) counted in bucket "
+        "fft/err-*. oracle cases: one per (shape, dims, flags, seed) / re-implementation input / distinct call-site form / "
+        "call history. distinct = distinct protocol line / oracle case key")
 PENDING_FINDINGS: list[str] = []
 # n-D corollaries (lifting of the 1-D theorems through Tensor.alongAxis) are obligations of this check too
 EXTRA_LEAN_MODULES = ["DirectVerif.Lemmas.TensorLiftC01", "DirectVerif.Lemmas.C01Dft", "DirectVerif.Lemmas.C01Linear",
@@ -107,6 +142,72 @@ def _impl_t(fn):
         except (ValueError, TypeError, IndexError, RuntimeError, AssertionError, ZeroDivisionError) as e:
             return "err " + err_name(e)
     return run
+
+
+
+# --------------------------------------------------------------------------------------------------
+# shape- and dtype-safe comparisons: a shape or dtype difference between the implementation's output and the expected
+# value IS a difference (reported with the input), never an exception of the harness
+class _BadOutput(Exception):
+    """the implementation returned something of the wrong type / layout / dtype (message = what)"""
+
+
+def _arr(a):
+    if isinstance(a, torch.Tensor):
+        a = a.detach()
+        a = a.resolve_conj() if a.is_complex() else a
+        return a.cpu().numpy()
+    return np.asarray(a)
+
+
+def _close(a, b, atol=0.0, rtol=0.0) -> bool:
+    a, b = _arr(a), _arr(b)
+    if a.shape != b.shape:
+        return False
+    try:
+        return bool(np.allclose(a, b, atol=atol, rtol=rtol))
+    except Exception:  # noqa: BLE001  (object arrays, …)
+        return False
+
+
+def _same(a, b) -> bool:
+    """exact equality of shape, dtype kind and values (torch tensors or numpy arrays)"""
+    a, b = _arr(a), _arr(b)
+    return a.shape == b.shape and a.dtype.kind == b.dtype.kind and bool(np.array_equal(a, b))
+
+
+def _diff(a, b):
+    a, b = _arr(a), _arr(b)
+    if a.shape != b.shape:
+        return f"shape {list(a.shape)} instead of {list(b.shape)}"
+    try:
+        return float(np.max(np.abs(a - b))) if a.size else 0.0
+    except Exception as e:  # noqa: BLE001
+        return f"incomparable ({err_name(e)})"
+
+
+def _absmax(a) -> float:
+    a = _arr(a)
+    try:
+        return float(np.max(np.abs(a))) if a.size else 0.0
+    except Exception:  # noqa: BLE001
+        return 0.0
+
+
+def _out_np(out, ci, want_cshape=None):
+    """output of fft2 / ifft2 -> complex128 ndarray; raises _BadOutput on a wrong type / layout / dtype / shape"""
+    if not isinstance(out, torch.Tensor):
+        raise _BadOutput(f"returns {type(out).__name__}, not a tensor")
+    want = torch.float32 if ci else torch.complex64
+    if out.dtype != want:
+        raise _BadOutput(f"dtype {out.dtype} instead of {want}")
+    if ci:
+        if out.dim() == 0 or out.shape[-1] != 2:
+            raise _BadOutput(f"shape {list(out.shape)} has no trailing real/imaginary axis")
+        out = torch.view_as_complex(out.contiguous())
+    if want_cshape is not None and list(out.shape) != list(want_cshape):
+        raise _BadOutput(f"shape {list(out.shape)} instead of {list(want_cshape)}")
+    return out.resolve_conj().numpy().astype(np.complex128)
 
 
 # --------------------------------------------------------------------------------------------------
@@ -285,6 +386,13 @@ def _as_view(rng, x):
     return v, "offset-slice"
 
 
+def _reimpl_out(out):
+    out = np.asarray(out)
+    if out.dtype.kind != "c":
+        raise _BadOutput(f"dtype {out.dtype} is not complex")
+    return out.astype(np.complex128)
+
+
 def _reimpl_functions():
     """numpy re-implementations of the centred transform under direct/ -> (name, fn, inverse, shape/dims maker)"""
     from direct.data import fake
@@ -353,10 +461,7 @@ def _fft_cases(ctx: Ctx):
                     shape = cshape
 
                 def run(x=x, d=tuple(d), c=c, n=n, ci=ci, fn=fn, comp=comp):
-                    out = fn(x, dim=d, centered=bool(c), normalized=bool(n), complex_input=bool(ci))
-                    if ci:
-                        out = torch.view_as_complex(out.contiguous())
-                    out = out.numpy().astype(np.complex128)
+                    out = _out_np(fn(x, dim=d, centered=bool(c), normalized=bool(n), complex_input=bool(ci)), ci)
                     return out / 1j if comp else out
                 odd = any(cshape[a] % 2 == 1 and cshape[a] >= 3 for a in d)
                 yield {"line": line("fft", shape, pos, d, [c, n, ci, inv], [DT_CODE[x.dtype]]), "run": run,
@@ -387,10 +492,7 @@ def _fft_cases(ctx: Ctx):
 
                     def run(x=x, d=dims, op_string=op_string, ci=ci, dform=dform):
                         op = str_to_class("direct.data.transforms", op_string)
-                        out = op(x, dim=tuple(d) if dform == "tuple" else list(d))
-                        if ci:
-                            out = torch.view_as_complex(out.contiguous())
-                        return out.numpy().astype(np.complex128)
+                        return _out_np(op(x, dim=tuple(d) if dform == "tuple" else list(d)), ci)
                     yield {"line": line("fft", cshape + ([2] if ci else []), pos, list(dims), [int(c), int(n), int(ci), inv],
                                         [DT_CODE[x.dtype]]), "run": run,
                            "nontrivial": any(cshape[a] >= 2 for a in dims),
@@ -408,10 +510,7 @@ def _fft_cases(ctx: Ctx):
         fn = T.ifft2 if inv else T.fft2
 
         def run(x=x, d=tuple(dims), c=c, n=n, ci=ci, fn=fn):
-            out = fn(x, dim=d, centered=bool(c), normalized=bool(n), complex_input=bool(ci))
-            if ci:
-                out = torch.view_as_complex(out.contiguous())
-            return out.numpy().astype(np.complex128)
+            return _out_np(fn(x, dim=d, centered=bool(c), normalized=bool(n), complex_input=bool(ci)), ci)
         yield {"line": line("fft", cshape + ([2] if ci else []), pos, dims, [c, n, ci, inv], [DT_CODE[x.dtype]]), "run": run,
                "nontrivial": any(cshape[a] >= 2 for a in dims), "bucket": f"fft/view/{view}"}
     # real float32 input with complex_input=False is accepted when every transformed length is a power of two
@@ -425,8 +524,8 @@ def _fft_cases(ctx: Ctx):
         x[tuple(pos)] = 1.0
         fn = T.ifft2 if inv else T.fft2
         yield {"line": line("fft", cshape, pos, d, [c, n, 0, inv], [0]),
-               "run": lambda x=x, d=tuple(d), c=c, n=n, fn=fn: fn(x, dim=d, centered=bool(c), normalized=bool(n),
-                                                                  complex_input=False).numpy().astype(np.complex128),
+               "run": lambda x=x, d=tuple(d), c=c, n=n, fn=fn: _out_np(fn(x, dim=d, centered=bool(c), normalized=bool(n),
+                                                                          complex_input=False), 0),
                "nontrivial": any(cshape[a] >= 2 for a in d), "bucket": "fft/real-float32-pow2"}
     # re-implementations of the centred transform with numpy outside transforms.py (fake.fft / fake.ifft /
     # SheppLoganDataset.fft): the same protocol line as fft2 / ifft2 with centered=normalized=1 on a complex array
@@ -438,7 +537,7 @@ def _fft_cases(ctx: Ctx):
             x[tuple(pos)] = 1.0
             odd = any(cshape[a] % 2 == 1 and cshape[a] >= 3 for a in dims)
             yield {"line": line("fft", cshape, pos, dims, [1, 1, 0, inv], [3]),
-                   "run": lambda x=x, fn=fn: np.asarray(fn(x)).astype(np.complex128),
+                   "run": lambda x=x, fn=fn: _reimpl_out(fn(x)),
                    "nontrivial": any(cshape[a] >= 2 for a in dims), "bucket": f"fft/reimpl/{name}/" + ("odd" if odd else "even")}
     # the ONE assumption about the external transform, probed systematically and exactly: torch.fft.fftn / ifftn over a
     # tuple of axes of every unit impulse of small tensors equals the per-axis DFT monomial (all norms incl. "forward")
@@ -452,9 +551,29 @@ def _fft_cases(ctx: Ctx):
                     x[tuple(pos)] = 1.0
                     f = torch.fft.ifftn if inv else torch.fft.fftn
                     yield {"line": line("fftn", cshape, list(pos), list(dims), [inv, nmc]),
-                           "run": lambda x=x, f=f, d=tuple(dims), nm=nm: f(x, dim=d, norm=nm).numpy().astype(np.complex128),
+                           "run": lambda x=x, f=f, d=tuple(dims), nm=nm: _out_np(f(x, dim=d, norm=nm), 0),
                            "nontrivial": any(cshape[a] >= 2 for a in dims),
                            "bucket": f"assumption/fftn-basis/{len(dims)}ax/" + nm}
+    # fixed double-fault / order-sensitive calls, both functions, centred and not: which exception wins is decided by the
+    # statement order of the glue (dim check, assert_complex, view_as_complex, shifts, dtype test, torch)
+    fixed = [("negdim+last-not-2", [3, 4, 3], torch.float32, 1, (0, -1)), ("negdim+float64", [3, 4, 2], torch.float64, 1, (-2, 1)),
+             ("negdim+complex128", [3, 4], torch.complex128, 0, (-1, 0)), ("last-not-2+int64", [3, 4, 3], torch.int64, 1, (0, 1)),
+             ("last-not-2+float64", [3, 4, 1], torch.float64, 1, (0, 1)), ("dim-range+float16", [3, 4, 2], torch.float16, 1, (0, 2)),
+             ("dim-range+float32", [3, 4, 2], torch.float32, 1, (1, 3)), ("dim-range+real", [4, 8], torch.float32, 0, (0, 2)),
+             ("dupdim+float64", [3, 4, 2], torch.float64, 1, (1, 1)), ("dupdim", [3, 4, 2], torch.float32, 1, (1, 1)),
+             ("empty-axis", [3, 0, 2], torch.float32, 1, (0, 1)), ("empty-axis+float64", [0, 4, 2], torch.float64, 1, (0, 1)),
+             ("real-mixed-pow2", [8, 6], torch.float32, 0, (0, 1)), ("real-mixed-pow2-b", [2, 6, 4], torch.float32, 0, (2, 1)),
+             ("int64-complex-layout", [3, 4, 2], torch.int64, 1, (0, 1)), ("bool-not-complex", [3, 4], torch.int64, 0, (0, 1))]
+    for kind, shape, dt, ci, d in fixed:
+        for inv in (0, 1):
+            for c in (0, 1):
+                x = torch.zeros(shape, dtype=dt)
+                fn = T.ifft2 if inv else T.fft2
+
+                def run(x=x, d=tuple(d), c=c, ci=ci, fn=fn):
+                    return _out_np(fn(x, dim=d, centered=bool(c), normalized=True, complex_input=bool(ci)), ci)
+                yield {"line": line("fft", shape, [0] * (len(shape) - (1 if ci else 0)), list(d), [c, 1, ci, inv], [DT_CODE[dt]]),
+                       "run": run, "nontrivial": True, "bucket": "fft/err-fixed/" + kind, "expect_err": True}
     # malformed stream: the code must reject these, and the model must name the same exception
     for _ in range(ctx.budget(60, 600)):
         rank = rng.randint(2, 4)
@@ -507,10 +626,7 @@ def _fft_cases(ctx: Ctx):
         fn = T.ifft2 if inv else T.fft2
 
         def run(x=x, d=tuple(d), c=c, n=n, ci=ci, fn=fn):
-            out = fn(x, dim=d, centered=bool(c), normalized=bool(n), complex_input=bool(ci))
-            if ci:
-                out = torch.view_as_complex(out.contiguous())
-            return out.numpy().astype(np.complex128)
+            return _out_np(fn(x, dim=d, centered=bool(c), normalized=bool(n), complex_input=bool(ci)), ci)
         yield {"line": line("fft", shape, pos[:len(shape) - (1 if ci else 0)], d, [c, n, ci, inv], [DT_CODE[dt]]), "run": run,
                "nontrivial": True, "bucket": "fft/err-" + kind, "expect_err": True}
 
@@ -523,6 +639,8 @@ def custom_correspondence(ctx: Ctx):
     for c in cases:
         try:
             impl.append(("ok", c["run"]()))
+        except _BadOutput as e:
+            impl.append(("bad", str(e)))
         except Exception as e:  # noqa: BLE001
             impl.append(("err", err_name(e)))
     model = core.run_driver(ctx.prop, [c["line"] for c in cases])
@@ -532,7 +650,9 @@ def custom_correspondence(ctx: Ctx):
         m = m.strip()
         agree = True
         shown = ""
-        if m.startswith("err "):
+        if kind == "bad":
+            agree, shown = False, f"bad output: {val}"
+        elif m.startswith("err "):
             agree = kind == "err" and val == m[4:]
             shown = f"err {val}" if kind == "err" else "ok <tensor>"
         elif kind == "err":
@@ -553,7 +673,7 @@ def custom_correspondence(ctx: Ctx):
         if c.get("expect_err") and not m.startswith("err "):
             ctx.hist["fft/err-accepted-by-both"] = ctx.hist.get("fft/err-accepted-by-both", 0) + 1
         if not agree:
-            dis.append({"line": c["line"], "impl": shown, "model": m[:300], "key": c["line"]})
+            dis.append({"line": c["line"], "impl": shown, "model": m, "key": c["line"], "bucket": c["bucket"]})
     return dis
 
 
@@ -589,9 +709,11 @@ def _call(T, name, x, dims, c, n, ci):
 
 
 def _as_np(out, ci):
-    if ci:
-        out = torch.view_as_complex(out.contiguous())
-    return out.numpy().astype(np.complex128)
+    """complex128 ndarray of an fft2 / ifft2 output; a wrong layout / dtype gives an array no expected value compares equal to"""
+    try:
+        return _out_np(out, ci)
+    except _BadOutput as e:
+        return np.array([f"bad output: {e}"], dtype=object)
 
 
 def _fft_oracle_case(T, shape_c, dims, c, n, ci, seed):
@@ -604,24 +726,36 @@ def _fft_oracle_case(T, shape_c, dims, c, n, ci, seed):
     odd = any(shape_c[a] % 2 == 1 and shape_c[a] >= 3 for a in dims)
     tag = ("centered" if c else "uncentered") + ("-odd" if odd else "-even")
     x0 = x.clone()
+    outs = {}
     try:
-        fwd = _call(T, "fft2", x, dims, c, n, ci)
-        bwd = _call(T, "ifft2", x, dims, c, n, ci)
+        outs["fft2(x)"] = fwd = _call(T, "fft2", x, dims, c, n, ci)
+        outs["ifft2(x)"] = bwd = _call(T, "ifft2", x, dims, c, n, ci)
+    except Exception as e:  # noqa: BLE001
+        return [("fft-raises-on-valid-input", f"fft2/ifft2 raise {err_name(e)} on a valid float32/complex64 input", repr(e))]
+    # shape / dtype / layout of the outputs come first: every later law needs them
+    for nm, y in outs.items():
+        try:
+            _out_np(y, ci, want_cshape=shape_c)
+        except _BadOutput as e:
+            bad.append((f"output-shape-or-dtype/{nm.split('(')[0]}/{tag}", f"{nm}: {e} (input complex shape {list(shape_c)}, dim={tuple(dims)})",
+                        str(e)))
+    if bad:
+        return bad
+    try:
         fwd0 = fwd.clone()
         back1 = _call(T, "ifft2", fwd, dims, c, n, ci)
         back2 = _call(T, "fft2", bwd, dims, c, n, ci)
         again = _call(T, "fft2", x, dims, c, n, ci)
     except Exception as e:  # noqa: BLE001
-        return [("fft-raises-on-valid-input", f"fft2/ifft2 raise {err_name(e)} on a valid float32/complex64 input", repr(e))]
-    rl = lambda t: torch.view_as_real(t) if t.is_complex() else t  # noqa: E731
-    if not torch.equal(rl(x), rl(x0)) or not torch.equal(rl(fwd), rl(fwd0)):
+        return [("fft-raises-on-valid-input", f"fft2/ifft2 raise {err_name(e)} on the output of the other transform", repr(e))]
+    if not _same(x, x0) or not _same(fwd, fwd0):
         bad.append((f"history/input-modified/{tag}", "fft2 / ifft2 modify their input tensor in place", "input differs after the call"))
-    if again.shape != fwd.shape or not torch.equal(rl(again), rl(fwd)):
+    if not _same(again, fwd):
         bad.append((f"history/repeated-call-differs/{tag}", "fft2 called twice on the same input (with ifft2 calls in between) returns "
-                    "different tensors", float((rl(again) - rl(fwd)).abs().max()) if again.shape == fwd.shape else "shape"))
+                    "different tensors", _diff(again, fwd)))
     for nm, back in (("ifft2(fft2(x))", back1), ("fft2(ifft2(x))", back2)):
-        if back.shape != x.shape or not np.allclose(_as_np(back, ci), z, atol=1e-4):
-            bad.append((f"inverse-pair/{tag}", f"{nm} != x", float(np.max(np.abs(_as_np(back, ci) - z))) if back.shape == x.shape else "shape"))
+        if not _close(_as_np(back, ci), z, atol=1e-4):
+            bad.append((f"inverse-pair/{tag}", f"{nm} != x", _diff(_as_np(back, ci), z)))
     if n:
         e0 = float(np.sum(np.abs(z) ** 2))
         for nm, y in (("fft2", fwd), ("ifft2", bwd)):
@@ -630,15 +764,13 @@ def _fft_oracle_case(T, shape_c, dims, c, n, ci, seed):
                 bad.append((f"energy/{nm}/{tag}", f"normalized {nm} does not preserve energy", [e0, e1]))
     for nm, y, inv in (("fft2", fwd, False), ("ifft2", bwd, True)):
         ref = _np_ref(z, tuple(dims), c, n, inv)
-        scale = max(1.0, float(np.max(np.abs(ref))))
-        if not np.allclose(_as_np(y, ci), ref, atol=1e-4 * scale):
-            bad.append((f"reference/{nm}/{tag}", f"{nm} differs from the numpy reference (optionally shifted) DFT",
-                        float(np.max(np.abs(_as_np(y, ci) - ref)))))
+        scale = max(1.0, _absmax(ref))
+        if not _close(_as_np(y, ci), ref, atol=1e-4 * scale):
+            bad.append((f"reference/{nm}/{tag}", f"{nm} differs from the numpy reference (optionally shifted) DFT", _diff(_as_np(y, ci), ref)))
         if _prod(shape_c) <= 400:
             tb = _textbook(z, tuple(dims), c, n, inv)
-            if not np.allclose(_as_np(y, ci), tb, atol=1e-4 * scale):
-                bad.append((f"textbook/{nm}/{tag}", f"{nm} differs from sum_j x_j w^((k-c)(j-c))",
-                            float(np.max(np.abs(_as_np(y, ci) - tb)))))
+            if not _close(_as_np(y, ci), tb, atol=1e-4 * scale):
+                bad.append((f"textbook/{nm}/{tag}", f"{nm} differs from sum_j x_j w^((k-c)(j-c))", _diff(_as_np(y, ci), tb)))
     return bad
 
 
@@ -659,23 +791,25 @@ def _reimpl_case(T, name, cshape, dims, seed):
         ours = _as_np(_call(T, "ifft2" if inv else "fft2", xr, dims, 1, 1, 1), 1)
     except Exception as e:  # noqa: BLE001
         return [(f"reimplementation/{slug}-raises", f"{name} raises {err_name(e)}", repr(e)[:200])]
-    scale = max(1.0, float(np.max(np.abs(ours))))
-    if got.shape != ours.shape or not np.allclose(got, ours, atol=1e-4 * scale):
+    scale = max(1.0, _absmax(ours))
+    if not _close(got, ours, atol=1e-4 * scale):
         bad.append((f"reimplementation/{slug}-{tag}", f"{name} differs from transforms.{'ifft2' if inv else 'fft2'} (centred, normalised) "
-                    "on the same axes", float(np.max(np.abs(got - ours))) if got.shape == ours.shape else "shape"))
+                    "on the same axes", _diff(got, ours)))
     if _prod(cshape) <= 400:
         tb = _textbook(z, tuple(dims), 1, 1, bool(inv))
-        if got.shape != tb.shape or not np.allclose(got, tb, atol=1e-6 * scale):
+        if not _close(got, tb, atol=1e-6 * scale):
             bad.append((f"reimplementation/{slug}-textbook-{tag}", f"{name} differs from sum_j x_j w^((k-c)(j-c)), c = n // 2",
-                        float(np.max(np.abs(got - tb))) if got.shape == tb.shape else "shape"))
-    if not np.array_equal(z, z0):
+                        _diff(got, tb)))
+    if not _same(z, z0):
         bad.append((f"reimplementation/{slug}-modifies-input", f"{name} modifies its input", ""))
     if name.startswith("fake."):
         other = fns["fake.ifft" if name == "fake.fft" else "fake.fft"][0]
-        back = np.asarray(other(got))
-        if back.shape != z.shape or not np.allclose(back, z, atol=1e-8 * max(1.0, float(np.max(np.abs(z))))):
-            bad.append((f"reimplementation/fake-inverse-pair-{tag}", "fake.ifft(fake.fft(x)) != x (or the converse)",
-                        float(np.max(np.abs(back - z))) if back.shape == z.shape else "shape"))
+        try:
+            back = np.asarray(other(got))
+        except Exception as e:  # noqa: BLE001
+            back = np.array([f"raises {err_name(e)}"], dtype=object)
+        if not _close(back, z, atol=1e-8 * max(1.0, _absmax(z))):
+            bad.append((f"reimplementation/fake-inverse-pair-{tag}", "fake.ifft(fake.fft(x)) != x (or the converse)", _diff(back, z)))
     return bad
 
 
@@ -700,54 +834,98 @@ def _site_case(T, dims, overrides, seed):
             except Exception as e:  # noqa: BLE001
                 return f"{nm} raises {err_name(e)}: {e}"[:160]
             ref = _np_ref(z, tuple(dims), flags["centered"], flags["normalized"], nm == "ifft2")
-            if not np.allclose(_as_np(y, flags["complex_input"]), ref, atol=1e-4 * max(1.0, float(np.max(np.abs(ref))))):
-                return f"{nm} differs from the reference transform over axes {tuple(dims)}"
+            if not _close(_as_np(y, flags["complex_input"]), ref, atol=1e-4 * max(1.0, _absmax(ref))):
+                return f"{nm} differs from the reference transform over axes {tuple(dims)} ({_diff(_as_np(y, flags['complex_input']), ref)})"
     return ""
 
 
-def _history_case(T, seed):
-    """a history of calls through shared operator / dim objects -> failing laws"""
+def _history_steps(seed):
+    """a call history as plain data: operator strings (-> functools.partial objects shared by all steps), three shared `dim`
+    objects, and per step which operator / helper is called on a tensor of which shape (data from the step's own seed)"""
+    r = __import__("random").Random(seed)
+    fs, bs = r.choice(_operator_strings())
+    lits = _spatial_dim_literals()
+    dim_objs = [list(r.choice(lits)), list(r.choice(lits)), tuple(r.choice(lits))]
+    steps = []
+    for _ in range(r.randint(7, 11)):
+        what = r.choice([fs, bs, fs, bs, "fftshift", "ifftshift", "roll"])
+        k = r.randrange(3)
+        rank = max(dim_objs[k]) + 1 + r.choice([0, 1])
+        steps.append({"what": what, "dim": k, "cshape": _shape(r, rank, 300), "seed": r.randrange(2 ** 31),
+                      "shifts": [r.randint(-3, 3) for _ in dim_objs[k]]})
+    return {"ops": [fs, bs], "dims": dim_objs, "steps": steps}
+
+
+def _history_run(T, seed, only=None):
+    """run the history (or only step `only` of it, in an otherwise untouched process) -> (index, what, observed) of the first step
+    whose result differs from the state-free reference (numpy), or whose input / `dim` object was modified; None if all fine"""
     from direct.utils import str_to_class
 
-    r = __import__("random").Random(seed)
-    pairs = _operator_strings()
-    fs, bs = r.choice(pairs)
-    ops = {s_: str_to_class("direct.data.transforms", s_) for s_ in (fs, bs)}
-    dim_objs = [list(r.choice(_spatial_dim_literals())) for _ in range(2)] + [tuple(r.choice(_spatial_dim_literals()))]
+    h = _history_steps(seed)
+    ops = {s_: str_to_class("direct.data.transforms", s_) for s_ in h["ops"]}
+    dim_objs = h["dims"]
     frozen = [list(d) for d in dim_objs]
-    bad = []
-    log = []
-    for step in range(r.randint(6, 10)):
-        s_ = r.choice([fs, bs])
-        _, c, n, ci = _parse_flags(s_)
-        dobj = r.choice(dim_objs)
-        rank = max(dobj) + 1 + r.choice([0, 1])
-        cshape = _shape(r, rank, 300)
-        xr = _rand_complex(r, cshape)
-        x = xr if ci else torch.view_as_complex(xr)
-        x0 = x.clone()
+    for i, st in enumerate(h["steps"]):
+        if only is not None and i != only:
+            continue
+        dobj = dim_objs[st["dim"]]
+        xr = _rand_complex(__import__("random").Random(st["seed"]), st["cshape"])
+        z = torch.view_as_complex(xr).numpy().astype(np.complex128)
+        desc = f"step {i}: {st['what']} on complex shape {st['cshape']} with the shared dim object {dobj!r}"
         try:
-            got = ops[s_](x, dim=dobj)
-            kind = r.choice(["fftshift", "ifftshift", "roll", "none"])
-            if kind in ("fftshift", "ifftshift"):                       # interleave the shift helpers on the same dim object
-                getattr(T, kind)(xr, dim=dobj)
-            elif kind == "roll":
-                T.roll(xr, [r.randint(-3, 3) for _ in dobj], dobj)
-            fresh = str_to_class("direct.data.transforms", s_)(x0.clone(), dim=tuple(dobj))
+            if st["what"] in ops:
+                nm, c, n, ci = _parse_flags(st["what"])
+                x = xr if ci else torch.view_as_complex(xr)
+                x0 = x.clone()
+                got = _as_np(ops[st["what"]](x, dim=dobj), ci)
+                ref = _np_ref(z, tuple(dobj), c, n, nm == "ifft2")
+                ok = _close(got, ref, atol=1e-4 * max(1.0, _absmax(ref)))
+            else:
+                x = xr
+                x0 = x.clone()
+                axes = tuple(dobj)
+                if st["what"] == "roll":
+                    got = T.roll(x, list(st["shifts"]), dobj)
+                    ref = np.roll(xr.numpy(), st["shifts"], axis=axes)
+                else:
+                    got = getattr(T, st["what"])(x, dim=dobj)
+                    ref = getattr(np.fft, st["what"])(xr.numpy(), axes=axes)
+                ok = _same(got, ref)
         except Exception as e:  # noqa: BLE001
-            return [("history/raises", f"step {step}: {s_} with the shared dim object {dobj!r} raises {err_name(e)}", repr(e)[:200])]
-        rl = lambda t: torch.view_as_real(t) if t.is_complex() else t  # noqa: E731
-        log.append((s_, list(dobj), cshape))
-        if got.shape != fresh.shape or not torch.equal(rl(got), rl(fresh)):
-            bad.append(("history/result-depends-on-earlier-calls", f"step {step} of {log}: the shared operator object returns a tensor "
-                        "that differs from a fresh call on the same input", ""))
-        if not torch.equal(rl(x), rl(x0)):
-            bad.append(("history/input-modified", f"step {step} of {log}: the input tensor was modified", ""))
+            return i, f"{desc} raises {err_name(e)}", repr(e)[:200]
+        if not ok:
+            return i, f"{desc} differs from the reference", _diff(got, ref)
+        if not _same(x, x0):
+            return i, f"{desc} modified its input", ""
         if [list(d) for d in dim_objs] != frozen:
-            bad.append(("history/dim-object-modified", f"step {step} of {log}: the caller's `dim` object was modified: {dim_objs}", ""))
-        if bad:
-            break
-    return bad
+            return i, f"{desc} modified the caller's `dim` object: {dim_objs}", ""
+    return None
+
+
+def _history_case(T, seed):
+    """-> failing laws.  A step that fails inside the history but passes when it is the only call of a fresh process depends on
+    earlier calls (state kept across calls); a step that also fails alone is a plain defect that the other sections report"""
+    import subprocess
+    import sys
+
+    bad = _history_run(T, seed)
+    if bad is None:
+        return []
+    i, what, obs = bad
+    code = ("import sys; sys.path.insert(0, %r); import boot; import direct.data.transforms as T; import props.c01 as m; "
+            "r = m._history_run(T, %d, only=%d); print('HISTORY-STEP-ALONE', 'fails' if r else 'passes')" %
+            (str(core.VERIF / "harness"), seed, i))
+    try:
+        r = subprocess.run([sys.executable, "-c", code], capture_output=True, text=True, timeout=300)
+        alone = "passes" if "HISTORY-STEP-ALONE passes" in r.stdout else ("fails" if "HISTORY-STEP-ALONE fails" in r.stdout else "unknown")
+    except Exception:  # noqa: BLE001
+        alone = "unknown"
+    if alone == "passes":
+        return [("history/result-depends-on-earlier-calls", what + " — but the same call is correct as the only call of a fresh process: "
+                 "state is kept across calls", obs)]
+    if alone == "unknown":
+        return [("history/step-fails", what, obs)]
+    return []
 
 
 def oracle(ctx: Ctx, deep: bool = False):
@@ -756,6 +934,15 @@ def oracle(ctx: Ctx, deep: bool = False):
 
     rng = ctx.rng
     big = deep or ctx.thorough
+    # (0) call histories first (a violation found here replays as a whole history in a fresh process): one operator object
+    #     (functools.partial from str_to_class) and shared `dim` objects reused across tensors of different shapes, interleaved with
+    #     the shift helpers — every step equals the state-free numpy reference, inputs and `dim` objects untouched; a failing step is
+    #     re-run alone in a fresh process to tell state kept across calls from a plain defect
+    for _ in range(ctx.budget(6, 60)):
+        seed = rng.randrange(2 ** 31)
+        ctx.count(("history", seed), True, bucket="oracle/histories")
+        for key, what, obs in _history_case(T, seed):
+            yield Violation(key, what, {"op": "history", "seed": seed, "law": key, "observed": obs})
     # (1) shift helpers vs numpy, and mutual inverses — every axis subset of small tensors, odd and even lengths
     for rank in range(1, 5 if big else 4):
         for _ in range(ctx.budget(3, 12) * (2 if deep else 1)):
@@ -947,13 +1134,13 @@ def oracle(ctx: Ctx, deep: bool = False):
                             x = xr if ci else torch.view_as_complex(xr)
                             y = op(x, dim=dform)
                             ref = _np_ref(z, tuple(dims), c, n, nm == "ifft2")
-                            if not np.allclose(_as_np(y, ci), ref, atol=1e-4 * max(1.0, float(np.max(np.abs(ref))))):
-                                bad.append(f"{s_} differs from the reference DFT with the flags of the string")
+                            if not _close(_as_np(y, ci), ref, atol=1e-4 * max(1.0, _absmax(ref))):
+                                bad.append(f"{s_} differs from the reference DFT with the flags of the string ({_diff(_as_np(y, ci), ref)})")
                         _, _, _, ci_f = _parse_flags(fs)
                         x = xr if ci_f else torch.view_as_complex(xr)
                         back = B(F(x, dim=dform), dim=dform)
-                        if back.shape != x.shape or not np.allclose(_as_np(back, ci_f), z, atol=1e-4):
-                            bad.append("backward(forward(x)) != x")
+                        if not _close(_as_np(back, ci_f), z, atol=1e-4):
+                            bad.append(f"backward(forward(x)) != x ({_diff(_as_np(back, ci_f), z)})")
                     except Exception as e:  # noqa: BLE001
                         bad.append(f"raises {err_name(e)}: {e}"[:160])
                     for what in bad:
@@ -990,18 +1177,16 @@ def oracle(ctx: Ctx, deep: bool = False):
                 yield Violation(f"views/{nm}-raises", f"{nm} raises {err_name(e)} on a {kind} view of a valid tensor",
                                 {"op": "view", "fn": nm, "kind": kind, "shape": shape_c, "dims": list(dims), "observed": repr(e)[:200]})
                 continue
-            o_r = torch.view_as_real(out) if out.is_complex() else out
-            e_r = torch.view_as_real(exp) if exp.is_complex() else exp
+            o_r, e_r = out, exp
             # shifts only move entries (exact); the FFT may take another code path for strided input (float32 rounding)
-            same = out.shape == exp.shape and (torch.equal(o_r, e_r) if nm.endswith("shift")
-                                               else torch.allclose(o_r, e_r, rtol=1e-5, atol=1e-4 * max(1.0, float(e_r.abs().max()))))
+            same = _same(o_r, e_r) if nm.endswith("shift") else _close(o_r, e_r, rtol=1e-5, atol=1e-4 * max(1.0, _absmax(e_r)))
             if not same:
                 yield Violation(f"views/{nm}-differs", f"{nm} on a {kind} view differs from {nm} on the contiguous copy",
                                 {"op": "view", "fn": nm, "kind": kind, "shape": shape_c, "dims": list(dims)})
-            if not torch.equal(torch.view_as_real(x) if x.is_complex() else x, torch.view_as_real(ref_in) if ref_in.is_complex() else ref_in):
+            if not _same(x, ref_in):
                 yield Violation(f"views/{nm}-modifies-input", f"{nm} modifies its input ({kind} view)",
                                 {"op": "view", "fn": nm, "kind": kind, "shape": shape_c, "dims": list(dims)})
-            shares = out.untyped_storage().data_ptr() == x.untyped_storage().data_ptr()
+            shares = isinstance(out, torch.Tensor) and out.untyped_storage().data_ptr() == x.untyped_storage().data_ptr()
             if shares and nm in ("fft2", "ifft2"):
                 yield Violation(f"views/{nm}-aliases-input", f"the output of {nm} shares memory with its input ({kind} view)",
                                 {"op": "view", "fn": nm, "kind": kind, "shape": shape_c, "dims": list(dims)})
@@ -1073,14 +1258,6 @@ def oracle(ctx: Ctx, deep: bool = False):
     if any(not st["understood"] for st in sites):
         ctx.notes.append("call sites whose `dim` expression the scanner does not understand: " +
                          ", ".join(f"{st['path']}:{st['line']}" for st in sites if not st["understood"])[:300])
-    # (2g) call histories: one operator object (functools.partial from str_to_class) and one `dim` object reused across tensors of
-    #      different shapes / dtypes, interleaved with other operators — every result equals the result of a fresh call, the
-    #      `dim` object and the inputs are left untouched
-    for _ in range(ctx.budget(6, 60)):
-        seed = rng.randrange(2 ** 31)
-        ctx.count(("history", seed), True, bucket="oracle/histories")
-        for key, what, obs in _history_case(T, seed):
-            yield Violation(key, what, {"op": "history", "seed": seed, "law": key, "observed": obs})
     # (3) rejected inputs
     x = torch.zeros(2, 3, 4, 2)
     for nm in ("fft2", "ifft2"):
@@ -1122,6 +1299,94 @@ def oracle(ctx: Ctx, deep: bool = False):
                                 {"op": "dtype", "fn": nm, "dtype": str(dt), "centered": c, "complex_input": ci, "observed": obs})
 
 
+# --------------------------------------------------------------------------------------------------
+# a disagreement between the implementation and the model on a protocol line IS a concrete failing input: `search` turns the
+# first ones into violations whose replay re-runs the implementation on that line and compares it with the recorded answer of
+# the model (= the specification the theorems are about)
+def _parse_line(ln):
+    op, _, rest = ln.partition(" ")
+    return op, [[int(v) for v in g.split()] for g in rest.split("|")]
+
+
+def _impl_for(who):
+    import direct.data.transforms as T
+
+    if who.startswith("fft/reimpl/"):
+        name = who.split("/")[2]
+        return {n: f for n, f, _, _ in _reimpl_functions()}[name]
+    return T
+
+
+def _line_disagrees(ln, model, who=""):
+    """re-run the implementation on a protocol line -> True when it (still) differs from the model's answer"""
+    import direct.data.transforms as T
+
+    op, gs = _parse_line(ln)
+    model = model.strip()
+    if op in ("roll", "fftshift", "ifftshift"):
+        shape, data = gs[0], gs[1]
+        x = torch.tensor(data, dtype=torch.float32).reshape(shape)
+        if op == "roll":
+            run = _impl_t(lambda: T.roll(x, list(gs[2]), list(gs[3])))
+        else:
+            run = _impl_t(lambda: getattr(T, op)(x, dim=list(gs[2])))
+        return run().strip() != model
+    if op in ("fft", "fftn"):
+        try:
+            if op == "fftn":
+                shape, pos, dims, (inv, nmc) = gs
+                x = torch.zeros(shape, dtype=torch.complex64)
+                x[tuple(pos)] = 1.0
+                f = torch.fft.ifftn if inv else torch.fft.fftn
+                val = _out_np(f(x, dim=tuple(dims), norm=("ortho", "backward", "forward")[nmc]), 0)
+            else:
+                shape, pos, dims, (c, n, ci, inv), (dtc,) = gs
+                dt = {v: k for k, v in DT_CODE.items()}[dtc]
+                if who.startswith("fft/reimpl/"):
+                    x = np.zeros(shape, dtype=np.complex128)
+                    if len(pos) == len(shape):
+                        x[tuple(pos)] = 1.0
+                    val = _reimpl_out(_impl_for(who)(x))
+                else:
+                    x = torch.zeros(shape, dtype=dt)
+                    if x.numel() and len(pos) == len(shape) - (1 if ci else 0):
+                        x[tuple(pos) + ((0,) if ci else ())] = 1
+                    val = _out_np((T.ifft2 if inv else T.fft2)(x, dim=tuple(dims), centered=bool(c), normalized=bool(n),
+                                                               complex_input=bool(ci)), ci)
+        except _BadOutput:
+            return True
+        except Exception as e:  # noqa: BLE001
+            return not (model.startswith("err ") and model[4:] == err_name(e))
+        if model.startswith("err "):
+            return True
+        g = [[int(v) for v in grp.split()] for grp in model[3:].split("|")]
+        shp, (L, num, den), es = g[0], g[1], np.array(g[2], dtype=np.int64)
+        exp = np.where(es < 0, 0.0, math.sqrt(num / den) * np.exp(-2j * np.pi * np.maximum(es, 0) / L)).reshape(shp)
+        return not _close(val, exp, atol=1e-5)
+    return True
+
+
+def search(ctx: Ctx, dis, lean):
+    seen = set()
+    for d in dis:
+        op = d["line"].split(" ", 1)[0]
+        m = d["model"].strip()
+        cls = m if m.startswith("err ") else "ok"
+        key = f"correspondence/{op}/model-says-{cls.replace(' ', '-')}"
+        if key in seen or len(seen) >= 4:
+            continue
+        who = d.get("bucket") or ""
+        try:
+            still = _line_disagrees(d["line"], m, who)
+        except Exception:  # noqa: BLE001
+            still = True
+        if not still:
+            continue
+        seen.add(key)
+        yield Violation(key, f"on `{d['line'][:120]}` the implementation gives {str(d['impl'])[:80]} where the specification gives {m[:80]}",
+                        {"op": "line", "line": d["line"], "model": m, "impl": str(d["impl"])[:300], "who": who})
+
+
 def replay(rep: dict) -> bool:
     import direct.data.transforms as T
 
@@ -1146,12 +1411,14 @@ def replay(rep: dict) -> bool:
         if op == "fft-laws":
             bad = _fft_oracle_case(T, rep["shape"], rep["dims"], rep["centered"], rep["normalized"], rep["complex_input"], rep["seed"])
             return any(k == rep["law"] for k, _, _ in bad)
+        if op == "line":
+            return _line_disagrees(rep["line"], rep["model"], rep.get("who", ""))
         if op == "reimpl":
             return any(k == rep["law"] for k, _, _ in _reimpl_case(T, rep["name"], rep["shape"], rep["dims"], rep["seed"]))
         if op == "site":
             return bool(_site_case(T, rep["dims"], [tuple(o) for o in rep["overrides"]], 0))
         if op == "history":
-            return any(k == rep["law"] for k, _, _ in _history_case(T, rep["seed"]))
+            return _history_run(T, rep["seed"]) is not None
         if op == "negdim":
             try:
                 getattr(T, rep["fn"])(torch.zeros(2, 3, 4, 2), dim=tuple(rep["dims"]))
